@@ -2,6 +2,7 @@
 package c04
 
 import (
+	"time"
 	"cmp"
 	"math"
 	"fmt"
@@ -903,6 +904,93 @@ func typesGen(s pbt.Src, thorough bool) TypesCase {
 	return c
 }
 
+// ---------------------------------------------------------------------------
+// Traverse while another goroutine edits OTHER keys: the keys that are present throughout are visited once each, in order
+
+type TravCase struct {
+	N     int   `json:"n"`     // keys 0..N-1 are inserted in the order given by Order
+	Order []int `json:"order"` // insertion order as a Lehmer-like code (taken modulo the remaining count)
+	Slow  int   `json:"slow"`  // the callback sleeps 200us at every Slow-th item (0: yields only)
+}
+
+func travGen(s pbt.Src, thorough bool) TravCase {
+	n := 8 + s.Intn(40)
+	return TravCase{N: n, Order: pbt.Seq(s, n, n, func(s pbt.Src) int { return s.Intn(n) }), Slow: s.Intn(4)}
+}
+
+func travProp(c TravCase, r *pbt.R) error {
+	n := c.N
+	if n < 4 || n > 256 || len(c.Order) < n {
+		return nil
+	}
+	t := bstree.New[int, int](func(a, b int) bool { return a < b })
+	rest := make([]int, n)
+	for i := range rest {
+		rest[i] = i
+	}
+	for i := 0; i < n; i++ {
+		j := ((c.Order[i] % len(rest)) + len(rest)) % len(rest)
+		t.Upsert(rest[j], 100+rest[j])
+		rest = append(rest[:j], rest[j+1:]...)
+	}
+	// the writer deletes and re-inserts the ODD keys; the even keys are never touched
+	stop := make(chan struct{})
+	done := make(chan struct{})
+	go func() {
+		defer close(done)
+		for round := 0; ; round++ {
+			for k := 1; k < n; k += 2 {
+				select {
+				case <-stop:
+					return
+				default:
+				}
+				if (round+k/2)%2 == 0 {
+					t.Delete(k)
+				} else {
+					t.Upsert(k, 100+k)
+				}
+			}
+		}
+	}()
+	var visited []int
+	for pass := 0; pass < 3; pass++ {
+		visited = visited[:0]
+		count := 0
+		t.Traverse(func(it bstree.Item[int, int]) {
+			count++
+			if len(visited) < 2*n {
+				visited = append(visited, it.Key)
+			}
+			if c.Slow > 0 && count%c.Slow == 0 {
+				time.Sleep(200 * time.Microsecond)
+			} else {
+				runtime.Gosched()
+			}
+		})
+		seen := map[int]int{}
+		for i, k := range visited {
+			seen[k]++
+			if i > 0 && visited[i-1] >= k {
+				close(stop)
+				<-done
+				return fmt.Errorf("Traverse while another goroutine deletes and re-inserts the odd keys of 0..%d: keys visited out of order or twice: %v", n-1, visited)
+			}
+		}
+		for k := 0; k < n; k += 2 {
+			if seen[k] != 1 {
+				close(stop)
+				<-done
+				return fmt.Errorf("Traverse while another goroutine deletes and re-inserts the odd keys of 0..%d (the even keys are never touched): key %d, present throughout, was visited %d times; visited %v", n-1, k, seen[k], visited)
+			}
+		}
+	}
+	close(stop)
+	<-done
+	r.NonTrivial()
+	return nil
+}
+
 func TestProp(t *testing.T) {
 	// A Traverse hands every item from an internal goroutine to the caller; with
 	// 16 shard processes on the machine a small GOMAXPROCS avoids the cost of
@@ -928,6 +1016,13 @@ func TestProp(t *testing.T) {
 			Rule: "the same ordered-map semantics on other instantiations: bstree.New[K, struct] with K = string ascending, float64 descending (negative, zero, fractional keys), uint8, strings ordered by (length, bytes), and float64 keys compared by their integer part only (a strict weak order with ties: equivalent keys are one key); random Upsert/Delete/Get sequences of up to 150 (600) operations over 3..80 keys against a Go map: results of every call, Size after every call (subject to the known finding), Traverse in comparator order at the end. Non-trivial = >= 3 keys at the end.",
 			Gen: typesGen, Prop: typesProp, OutOfEnum: func(TypesCase, bool) bool { return true },
 			RapidQuick: 400, RapidThorough: 5000,
+		},
+		&pbt.Check[TravCase]{
+			Name: "traverse-concurrent",
+			Rule: "free-running (real scheduler): a tree of 8..47 keys built in a random insertion order; one goroutine keeps deleting and re-inserting the ODD keys while Traverse runs three times with a callback that yields or sleeps 200us: every EVEN key (present throughout, never touched) is visited exactly once and the visited keys are strictly ascending. " +
+				"(Whether an odd key is seen is up to the interleaving.) Non-trivial = every case.",
+			Gen: travGen, Prop: travProp, OutOfEnum: func(TravCase, bool) bool { return true },
+			RapidQuick: 8, RapidThorough: 100,
 		},
 	)
 }
